@@ -9,8 +9,9 @@
 //!   glyphs, dangling references) written as static UFOs. The real `fontdrasil::util::depth_sorted_composite_glyphs`
 //!   is also called in-process on the same graph (it is iterative) and compared with the Lean model `depthSort`.
 //! * `c15mut`: structural mutations of valid sources (generated designs + copies of /repo/resources/testdata).
+//! * `c15corpus`: minimised reproducers of past findings (/verif/corpus/c15) + testdata sources known to end in a panic.
 //!
-//! Environment knobs: C15_TIMEOUT_S (60), C15_AS_MB (4096), C15_KEEP=<dir> (keep the mutated source tree of each case
+//! Knobs: `--timeout S` / C15_TIMEOUT_S (60), C15_AS_MB (4096), C15_KEEP=<dir> (keep the mutated source tree of each case
 //! under <dir>/<stream>-<index>, for minimisation), C15_CHILD=<exe> (run another vharness build as the child, e.g. one
 //! built against a patched checkout).
 use crate::e2e::{build, design, write};
@@ -70,11 +71,18 @@ fn env_u64(k: &str, d: u64) -> u64 {
     std::env::var(k).ok().and_then(|v| v.parse().ok()).unwrap_or(d)
 }
 
+/// wall-clock limit per child: `--timeout S` on the command line, else C15_TIMEOUT_S, else 60 s
+static TIMEOUT_S: std::sync::OnceLock<u64> = std::sync::OnceLock::new();
+fn set_timeout(args: &Args) {
+    let cli = args.rest.iter().position(|a| a == "--timeout").and_then(|p| args.rest.get(p + 1)).and_then(|v| v.parse().ok());
+    let _ = TIMEOUT_S.set(cli.unwrap_or_else(|| env_u64("C15_TIMEOUT_S", 60)));
+}
+
 pub fn run_limited(src: &Path, out: &Path, flags: Option<u32>) -> Outcome {
     use std::os::unix::process::ExitStatusExt;
     // our own image through /proc/<pid>/exe: still executable if a concurrent `cargo build` replaced the file on disk
     let exe = std::env::var("C15_CHILD").map(PathBuf::from).unwrap_or_else(|_| PathBuf::from(format!("/proc/{}/exe", std::process::id())));
-    let timeout = Duration::from_secs(env_u64("C15_TIMEOUT_S", 60));
+    let timeout = Duration::from_secs(*TIMEOUT_S.get_or_init(|| env_u64("C15_TIMEOUT_S", 60)));
     let as_kb = env_u64("C15_AS_MB", 4096) * 1024;
     let _ = fs::remove_file(out);
     // limits are set by the shell that then exec()s the child: address space, default 8 MB stack, no core files
@@ -134,16 +142,27 @@ pub fn run_limited(src: &Path, out: &Path, flags: Option<u32>) -> Outcome {
     Outcome { kind, code, stderr, font, millis }
 }
 
-/// The last lines of stderr that matter: error/panic/overflow/abort messages, else the tail.
+/// The lines of stderr that matter: error/panic/overflow/abort messages (a panic's message is on the line after
+/// `panicked at`), else the tail.
 fn stderr_digest(stderr: &str) -> String {
     let key = ["error", "panicked", "overflowed", "memory allocation", "abort", "Stuck", "fatal"];
-    let mut lines: Vec<&str> = stderr.lines().filter(|l| key.iter().any(|k| l.contains(k))).collect();
-    if lines.is_empty() {
-        lines = stderr.lines().rev().take(3).collect::<Vec<_>>().into_iter().rev().collect();
+    let all: Vec<&str> = stderr.lines().collect();
+    let mut keep: Vec<usize> = vec![];
+    for (i, l) in all.iter().enumerate() {
+        if key.iter().any(|k| l.contains(k)) {
+            keep.push(i);
+            if l.contains("panicked at") && i + 1 < all.len() { keep.push(i + 1); }
+        }
     }
-    let mut s = lines.into_iter().rev().take(4).collect::<Vec<_>>().into_iter().rev().collect::<Vec<_>>().join(" | ");
-    if s.len() > 600 {
-        let mut cut = 600;
+    keep.sort(); keep.dedup();
+    let mut lines: Vec<&str> = keep.iter().map(|i| all[*i]).collect();
+    if lines.is_empty() {
+        lines = all.iter().rev().take(3).rev().cloned().collect();
+    }
+    if lines.len() > 5 { lines = lines[lines.len() - 5..].to_vec(); }
+    let mut s = lines.join(" | ");
+    if s.len() > 700 {
+        let mut cut = 700;
         while !s.is_char_boundary(cut) { cut -= 1; }
         s.truncate(cut);
     }
@@ -299,7 +318,7 @@ pub fn gen_graph(rng: &mut Rng, i: usize) -> GraphCase {
     for (g, cs) in &graph {
         if !cs.is_empty() && rng.chance(1, 5) { mixed.insert(g.clone()); }
     }
-    // mostly the CLI default flags; sometimes flatten / decompose / erase-open-corners-free variants
+    // half the cases the CLI default flags; else flatten / decompose / decompose-transformed on top of them
     let default_flags = fontir::orchestration::Flags::default().bits();
     let flags = match rng.below(6) {
         0 => Some(default_flags | 0b1000),          // FLATTEN_COMPONENTS
@@ -342,6 +361,7 @@ pub fn graph_design(c: &GraphCase) -> design::Design {
 }
 
 pub fn run_graph(args: &Args) {
+    set_timeout(args);
     let seed = args.seed;
     crate::run_cases("c15graph", args, move |i| {
         let mut rng = Rng::for_case(seed, "c15graph", i);
@@ -858,6 +878,7 @@ fn make_base(rng: &mut Rng, k: usize, root: &Path) -> (String, PathBuf) {
 }
 
 pub fn run_mut(args: &Args) {
+    set_timeout(args);
     let seed = args.seed;
     crate::run_cases("c15mut", args, move |i| {
         let mut rng = Rng::for_case(seed, "c15mut", i);
@@ -885,6 +906,47 @@ pub fn run_mut(args: &Args) {
             S::k1("muts", S::list(logs.iter().map(|l| S::list([S::atom(l.kind), S::str(&l.file), S::str(&l.detail)])))),
             S::k1("millis", S::int(o.millis as i128)),
         ];
+        f.extend(outcome_fields(&o));
+        f
+    });
+}
+
+// ------------------------------------------------------------------------------------------------
+// c15corpus: minimised reproducers of past findings, always run
+// ------------------------------------------------------------------------------------------------
+
+/// sources under /verif/corpus/c15 (files and .ufo directories, sorted) + sources in the repo's own testdata that
+/// are known to end badly
+pub fn corpus_entries() -> Vec<(String, PathBuf)> {
+    let mut out: Vec<(String, PathBuf)> = vec![];
+    if let Ok(rd) = fs::read_dir("/verif/corpus/c15") {
+        let mut es: Vec<PathBuf> = rd.flatten().map(|e| e.path()).collect();
+        es.sort();
+        for p in es {
+            if matches!(ext_of(&p), "glyphs" | "ufo" | "designspace" | "glyphspackage" | "fontra") {
+                out.push((p.file_name().unwrap().to_string_lossy().to_string(), p));
+            }
+        }
+    }
+    for rel in ["glyphs2/Unicode-QuotedHexSequence.glyphs", "glyphs2/Unicode-UnquotedHex.glyphs", "fontra/minimal.fontra",
+                "fontra/2glyphs.fontra", "fontra/codepoints.fontra", "fontra/component.fontra"] {
+        out.push((format!("testdata/{rel}"), Path::new(TESTDATA).join(rel)));
+    }
+    out
+}
+
+pub fn run_corpus(args: &Args) {
+    set_timeout(args);
+    let entries = corpus_entries();
+    crate::run_cases("c15corpus", args, move |i| {
+        let (label, path) = &entries[i % entries.len()];
+        let tmp = build::tmpdir("c15corpus");
+        // work on a copy: nothing the compiler writes next to its input can touch the corpus
+        let entry = tmp.path().join("src").join(path.file_name().unwrap());
+        copy_tree(path, &entry).expect("copy corpus entry");
+        let out = tmp.path().join("out.ttf");
+        let o = run_limited(&entry, &out, None);
+        let mut f = vec![S::k1("source", S::str(label)), S::k1("millis", S::int(o.millis as i128))];
         f.extend(outcome_fields(&o));
         f
     });
